@@ -16,6 +16,7 @@ import itertools
 import json
 import os
 import random
+import signal
 import subprocess
 import sys
 from collections import Counter
@@ -286,7 +287,16 @@ def parse_client(src):
 
 # ---- running the real rules inside a tree
 
+RULE_TIMEOUT_S = 20
+
+
+class RuleTimeout(BaseException):
+    pass
+
+
 class Impl:
+    hung: set = set()
+
     def __init__(self, base: Path):
         self.mods = common.import_impl()
         self.base = str(base)
@@ -318,13 +328,30 @@ class Impl:
              "_breakout_stacked_imports": self.fixes._breakout_stacked_imports,
              "_sort_import_statements": self.fixes._sort_import_statements,
              "_fix_imported_as_self_or_unsorted": self.fixes._fix_imported_as_self_or_unsorted}[rule]
+        # a rule that does not come back (a mutant's endless loop) is reported like a crash; once a rule has
+        # timed out it is not called again in this run
+        if rule in self.hung:
+            return ("crash", "Timeout")
+
+        def _alarm(signum, frame):
+            raise RuleTimeout()
+
+        # CPU time of this process, not wall time: a loaded machine must not look like a hang
+        old = signal.signal(signal.SIGPROF, _alarm)
+        signal.setitimer(signal.ITIMER_PROF, RULE_TIMEOUT_S)
         try:
             with common.quiet():
                 return f(src)
+        except RuleTimeout:
+            self.hung.add(rule)
+            return ("crash", "Timeout")
         except RecursionError:
             return ("crash", "RecursionError")
         except Exception as e:  # noqa
             return ("crash", type(e).__name__ + ": " + str(e)[:100])
+        finally:
+            signal.setitimer(signal.ITIMER_PROF, 0)
+            signal.signal(signal.SIGPROF, old)
 
 
 def run_worker(jobs, base: Path, timeout=600):
@@ -410,6 +437,9 @@ SMALL_CLIENTS = [
     [("from", "mb", "x", "x"), ("from", "mb", "w", "w", "+")],              # from mb import x, w
     [("from", "mb", "ma", "ma"), ("from", "mb", "w", "q", "+")],            # from mb import ma, w as q
     [("from", "mb", "w", "w")],
+    # the client's own __all__ is irrelevant for what ITS star imports bind (trace_origin flag __all__=False)
+    [("assign", "__all__"), ("star", "mb")],
+    [("assign", "__all__"), ("star", "ma"), ("from", "mb", "x", "x")],
 ]
 
 
@@ -533,7 +563,12 @@ SMALL_STMTS = [
     ("from", "ma", [("x", "y")]), ("from", "ma", [("y", None), ("x", None)]),
     ("import", [("ma", None)]), ("import", [("mb", "ma")]), ("import", [("os", None)]),
     ("import", [("mb", None), ("ma", None)]), ("import", [("os.path", None)]),
+    ("import", [("ma", "ma")]),                                   # `import ma as ma`
+    ("import", [("os", None), ("ma", "x"), ("ma", "q"), ("ma", None)]),   # loses `os` after `import os`: rest re-sorted
 ]
+# all triples over four statements that (re)bind x: duplicate detection must follow the CURRENT binding
+TRIPLE_STMTS = [("import", [("ma", "x")]), ("from", "mb", [("x", None)]), ("import", [("ma", None)]),
+                ("import", [("mb", "x")])]
 
 
 def stmt_text(s):
@@ -609,7 +644,14 @@ def random_stmts(rnd):
 
 RULES = [("remove_unused_imports", "RUnused", True), ("_fix_duplicate_from_imports", "RDupFrom", True),
          ("_fix_duplicate_regular_imports", "RDupRegular", True), ("_breakout_stacked_imports", "RBreakout", False),
-         ("_sort_import_statements", "RSort", True), ("_fix_imported_as_self_or_unsorted", "RSortAliases", True)]
+         ("_sort_import_statements", "RSort", True), ("_fix_imported_as_self_or_unsorted", "RSortAliases", True),
+         ("fix_duplicate_imports", "RDupAll", False), ("sort_imports", "RSortAll", True)]
+
+
+def attr_as_self_import(stmts):
+    """`import p.q as q`: _fix_imported_attr_as_self turns it into `from p import q` (needs the structure of dotted
+    names: outside the model; covered by the sweep witness attr-as-self)"""
+    return any(s[0] == "import" and any(a and "." in n and n.split(".")[-1] == a for n, a in s[1]) for s in stmts)
 
 HEADER = ("From Coq Require Import List Arith Bool.\nImport ListNotations.\n"
           "Require Import Pyrefact.Base Pyrefact.ImportsModel.\n")
@@ -745,6 +787,8 @@ def stmt_rule_cases(impl, lists_useds, stdlib):
     for stmts, used in lists_useds:
         src = stmts_source(stmts, used)
         for rule, rid, ordered in RULES:
+            if rid == "RDupAll" and attr_as_self_import(stmts):
+                continue
             out = impl.run(rule, src)
             if isinstance(out, tuple):
                 labels.append((rule, "crash", src, out)); cs.append("(RSort, true, [], [], [SImport []])")
@@ -762,7 +806,7 @@ def stmt_rule_cases(impl, lists_useds, stdlib):
 
 
 def small_stmt_lists(maxlen):
-    out = []
+    out = [list(c) for c in itertools.product(TRIPLE_STMTS, repeat=3)]
     for n in range(1, maxlen + 1):
         for combo in itertools.product(SMALL_STMTS, repeat=n):
             out.append(list(combo))
@@ -772,6 +816,8 @@ def small_stmt_lists(maxlen):
 def useds_for(stmts, rnd=None):
     bound = sorted({b for s in stmts for b in stmt_bound(s)})
     if rnd is None:
+        if len(stmts) > 1:
+            return [bound, bound[1:]] if len(bound) > 1 else [bound, []]
         return [bound, bound[:1], bound[1:]] if len(bound) > 1 else [bound, []]
     k = rnd.randint(0, len(bound))
     return [sorted(rnd.sample(bound, k))]
@@ -966,8 +1012,7 @@ GUESSABLE: set = set()   # filled in check() from constants.ASSUMED_SOURCES / AS
 
 SIGS = {"same_name_rebound": sig_same_name_rebound, "dotted_import_head": sig_dotted_import_head,
         "nested_scope_binding": sig_nested_scope_binding, "relative_import_chain": sig_relative_import_chain,
-        "local_import_made_global": sig_local_import_made_global, "guess_preempts_star": sig_guess_preempts_star,
-        "renamed_rebound_variable": sig_renamed_rebound_variable}
+        "local_import_made_global": sig_local_import_made_global, "guess_preempts_star": sig_guess_preempts_star}
 IMPORT_SITES = set(SITE.values())
 
 
@@ -1063,6 +1108,10 @@ SPECIALS = [
     ("compat-star", "from mcompat import *\nprint(f, k)\n", ["f", "k"], ALL_RULES),
     ("shim-from", "from mshim import enc, plain\nprint(enc, plain)\n", ["enc", "plain"], ALL_RULES),
     ("match-star", "from mmatch import *\nprint(f, k)\n", ["f", "k"], ALL_RULES),
+    # mutation triage: a built-in module that is not in PYTHON_311_STDLIB; a __future__ import must stay first
+    ("builtin-star", "from _weakref import *\nprint(ref, proxy)\n", ["ref", "proxy"], ALL_RULES),
+    ("future-first", "from __future__ import annotations\nimport mb\nimport ma\nprint(ma, mb)\n", ["ma", "mb"], ALL_RULES),
+    ("import-as-self", "import ma as ma\nimport json as json, os as os\nprint(ma, json, os)\n", ["ma", "json", "os"], ALL_RULES),
 ]
 
 
@@ -1236,7 +1285,7 @@ def check(run: common.Run):  # noqa: C901
         if no_self_dups(l):
             lu += [(l, u) for u in useds_for(l)]
     n_small_lists = len(lu)
-    n_rand = 250 if run.tier == "quick" else 3000
+    n_rand = 150 if run.tier == "quick" else 3000
     while n_rand:
         l = random_stmts(rnd)
         if no_self_dups(l):
